@@ -10,6 +10,7 @@ import (
 	"strings"
 	"time"
 
+	"github.com/els0r/goProbe/v4/pkg/query"
 	"github.com/els0r/goProbe/v4/pkg/results"
 	"github.com/els0r/goProbe/v4/pkg/types"
 )
@@ -106,6 +107,30 @@ func c13Run(f []string) string {
 			return "hits-mismatch"
 		}
 		return c13ShowRows(res.Rows)
+	case "pp":
+		// Statement.PostProcess: time binning THEN the row limit. The limit of these cases is at least the
+		// number of rows after binning, so nothing may be cut: the result is the binned result.
+		b, _ := strconv.ParseInt(f[1], 10, 64)
+		limit, _ := strconv.ParseUint(f[2], 10, 64)
+		res := results.New()
+		for _, rs := range splitList(f[3]) {
+			p := strings.Split(rs, ":")
+			key, _ := strconv.Atoi(p[1])
+			var c [4]uint64
+			for i := 0; i < 4; i++ {
+				c[i], _ = strconv.ParseUint(p[2+i], 10, 64)
+			}
+			res.Rows = append(res.Rows, c13RowFromKey(p[0], key, c))
+		}
+		stmt := &query.Statement{NumResults: limit, TimeBinSize: time.Duration(b)}
+		stmt.LabelSelector.Timestamp = true
+		if err := stmt.PostProcess(context.Background(), res); err != nil {
+			return "err"
+		}
+		if res.Summary.Hits.Displayed != len(res.Rows) {
+			return "displayed-mismatch"
+		}
+		return c13ShowRows(res.Rows)
 	}
 	return "bad-op"
 }
@@ -194,6 +219,13 @@ func c13Gen(r *Rand, tier string) []Case {
 			rows = append(rows, fmt.Sprintf("%s:%d:%d:%d:%d:%d", ts, key, r.I64n(1<<40), r.I64n(1<<40), r.I64n(1<<30), r.I64n(1<<30)))
 		}
 		cs = append(cs, Case{Line: fmt.Sprintf("C13 bintime %d %s", s*1000000000, listField(rows)), Class: fmt.Sprintf("bintime:merges>0=%v", merges > 0), NonTrivial: merges > 0})
+		if s != 300 && len(rows) > 0 && r.Chance(1, 2) {
+			// the same rows through Statement.PostProcess with a row limit between the number of rows after
+			// binning and the number of rows before (or above)
+			binned := len(rows) - merges
+			limit := binned + r.Intn(merges+2)
+			cs = append(cs, Case{Line: fmt.Sprintf("C13 pp %d %d %s", s*1000000000, limit, listField(rows)), Class: fmt.Sprintf("postprocess:limit-below-raw=%v", limit < len(rows)), NonTrivial: limit < len(rows)})
+		}
 	}
 	return cs
 }
@@ -201,7 +233,7 @@ func c13Gen(r *Rand, tier string) []Case {
 func init() {
 	register(&Prop{
 		ID:   "C13",
-		Rule: "seeded: BinTimestamp on aligned/off-by-one/random/negative timestamps x bin sizes (5m..7d, random multiples of 5m); CalcTimeBinSize on whole-second and arbitrary durations; BinTime on <=40 (thorough <=500) rows over <=12 keys within 3 bins. Non-trivial: bints with ts>=0 not aligned; calc within the auto-size domain; bintime where at least two rows merge. Distinct = distinct case lines.",
+		Rule: "seeded: BinTimestamp on aligned/off-by-one/random/negative timestamps x bin sizes (5m..7d, random multiples of 5m); CalcTimeBinSize on whole-second and arbitrary durations; BinTime on <=40 (thorough <=500) rows over <=12 keys within 3 bins; the same rows through Statement.PostProcess (binning, then row limit) with a limit between the number of rows after and before binning. Non-trivial: bints with ts>=0 not aligned; calc within the auto-size domain; bintime where at least two rows merge. Distinct = distinct case lines.",
 		Gen:  c13Gen,
 		Run:  c13Run,
 	})
